@@ -89,6 +89,33 @@ CHECKS["C06"] = dict(
           "correspondence tested; forall is covered by C09's table model."),
     technique="Lean 4 proof over an interpreter model + program-level differential correspondence")
 
+CHECKS["C07"] = dict(
+    category="proof",
+    text=("Lean 4 theorems (BlocV.Proofs.C07) over the interpreter model: the catchable set is generated from "
+          "RuntimeError::THROWABLES and `when others` matches exactly user names + OUT_OF_RANGE + DIVIDE_BY_ZERO; a named "
+          "built-in clause matches exactly its error; the FIRST matching clause of the block runs from the state the error "
+          "left (handler_selection), an unmatched or uncatchable error leaves the block unchanged and reaches the host, an "
+          "error inside a handler propagates; tied to /repo by generated nestings x failing operation x handler-name sets at "
+          "two levels, each followed by a probe program in the same context, with control/exec depth and constraint flags "
+          "read through the BLOC_VERIF accessors (no residue)."),
+    design_ref="DESIGN.md §6 C07",
+    note=("Trusted: Lean kernel; the absence of residue in the C++ control stacks is observed (dump after every run + probe "
+          "program), not proved: the value-level model has no such state by construction; C++ unwinding assumed to run the "
+          "transcribed catch blocks; the interactive runner (apps/cli_parser.cpp) is covered by C19."),
+    technique="Lean 4 proof over an interpreter model + generated-nesting differential correspondence")
+CHECKS["C08"] = dict(
+    category="proof",
+    text=("Lean 4 theorems (BlocV.Proofs.C08): a call equals finishCall(caller, body run from calleeInit(f, argument values)) "
+          "— the callee starts from typed nulls for its own symbols plus bound parameters, independent of the caller's "
+          "variables and of any earlier call; the caller's variables are untouched; a failing argument fails the call; at "
+          "recursion depth 255 the call raises RECURSION_LIMIT without evaluating anything; RECURSION_LIMIT is generated "
+          "from functor_manager.h. Tied to /repo by placing the same probe call after generated call histories (conditionally "
+          "assigned / re-typed locals, recursion to the limit, mutual recursion, failing calls, overloads, self-calling arguments)."),
+    design_ref="DESIGN.md §6 C08",
+    note=("Trusted: Lean kernel; the model creates a fresh callee state per call, the C++ recycles contexts and resets them "
+          "(fix commit): their equivalence is exactly what the correspondence tests."),
+    technique="Lean 4 proof over an interpreter model + call-history differential correspondence")
+
 NOT_YET = {}
 
 ALL = ["C%02d" % i for i in range(1, 20)]
